@@ -161,16 +161,14 @@ def extra_entries():
             return h.call(sxh.F_FRI, "fri_verify_layers", [group, n1, RList([]), RList([]), RList([]), RList([]), RList([])])
         return {}, both
     def b_coset_loop(h, shape):
-        """coset_size = 2^step for a step size of a validated symbolic config (as fri_verify_layers computes it), then compute_next_layer"""
+        """coset_size = 2^step for a step size of a validated symbolic config (as fri_verify_layers computes it), then compute_coset_elements"""
         cfg = h.struct(sxh.F_FRICFG, "Config", "cfg", {"cfg.inner_layers": 1, "cfg.fri_step_sizes": 2})
         lnc, nvf = h.felt("log_n_cosets"), h.felt("nvf")
         c18.protected(h, lambda: h.require_ok(h.call(sxh.F_FRICFG, "validate", [lnc, nvf], owner="Config", self_val=cfg)))
         cs = h.ex.f_pow(F(2), cfg.fields["fri_step_sizes"][1], 0)
         qs = RList([h.struct(sxh.F_LAYER, "FriLayerQuery", "q0", {})])
-        h.ex.assume(zi(qs[0].fields["index"]) < 16)
         group = h.call("crates/fri/src/group.rs", "get_fri_group", [])
-        params = SStruct("FriLayerComputationParams", {"coset_size": cs, "fri_group": group, "eval_point": h.felt("ep")}, h.w.mod(sxh.F_LAYER))
-        return {}, lambda: h.call(sxh.F_LAYER, "compute_next_layer", [qs, h.felts("sib", 15), params])
+        return {}, lambda: h.call(sxh.F_LAYER, "compute_coset_elements", [qs, h.felts("sib", 16), cs, h.felt("start"), group])
     E = [c18.Entry("random_felts_to_prover", [], [None], b_random_felts), c18.Entry("get_diluted_product", [], [None, 3, 16], b_diluted),
          c18.Entry("get_public_memory_product", [], [0, 2, 3], b_page), c18.Entry("get_hash", [], [1, 2], b_get_hash),
          c18.Entry("get_hash_dynamic", [], [None], b_get_hash_dyn), c18.Entry("StarkDomains::new", [], [None], b_domains_any),
@@ -179,45 +177,71 @@ def extra_entries():
     return E
 
 
-def observe_all(tier):
-    """run the C18 harnesses (and the extra ones) with site observation switched on"""
+_ENTRIES = []
+
+
+def _observe_entry(idx):
+    """worker: run one harness with site observation on; returns {(rel, line): summary} (bounds decided here: z3 terms do not cross processes)"""
+    en = _ENTRIES[idx]
     sx.SITE_OBS = {}
     c18.EXPLORATION_BOUNDS = False
-    errors = []
-    unbounded = {}
+    errors, unbounded = [], {}
+    shapes = list(en.shapes)
+    if len(shapes) > 10:
+        shapes = shapes[:4] + shapes[len(shapes) // 2:len(shapes) // 2 + 3] + shapes[-3:]
+    w = world("recursive", toy=en.toy)
+    special = en.name in ("fri_loops", "coset_loop")
+    t0 = time.time()
+    for shape in shapes:
+        if time.time() - t0 > 200:
+            errors.append("observation time budget exhausted at entry %s" % en.name)
+            break
+        ex = Exec(w, types=en.types(w) if en.types else {}, abstract=en.abstract(w) if en.abstract else None,
+                  int_bound=en.int_bound if special else min(en.int_bound, 4), max_loop=6)
+        def entry(ex, shape=shape):
+            h = H(ex)
+            inputs, thunk = en.build(h, shape)
+            return thunk()
+        try:
+            outs = ex.explore(entry, max_paths=en.max_paths if special else min(en.max_paths, 120), budget_s=en.budget_s if special else 30)
+        except (Unsupported, LoopBound) as u:
+            errors.append("%s %s: %s" % (en.name, shape, str(u)[:120]))
+            continue
+        for o in outs:
+            if o.kind == "unbounded":
+                unbounded[(sxh.rel_site(o), o.site[1])] = (o.msg, en.name)
+    out = {}
+    for (f, line), o in sx.SITE_OBS.items():
+        rel = common.rel(f) if str(f).startswith(REPO) else str(f)
+        B = decide_bound(o) if o["terms"] else None
+        out[(rel, line)] = {"kind": o["kind"], "counts": sorted(o["counts"]), "symbolic": o["symbolic"], "has_terms": bool(o["terms"]), "B": B, "entry": en.name}
+    sx.SITE_OBS = None
+    return out, unbounded, errors
+
+
+def observe_all(tier):
+    """run the C18 harnesses (and the extra ones) with site observation switched on, one process per harness"""
+    import multiprocessing as mp
+    global _ENTRIES
     todo = []
     for en in c18.entries(tier) + c18deep.entries(tier) + extra_entries():
         todo.append(en)
         if en.info is not None:
             todo.append(en.info)
-    t_all = time.time()
-    for en in todo:
-        shapes = list(en.shapes)
-        if len(shapes) > 10:
-            shapes = shapes[:4] + shapes[len(shapes) // 2:len(shapes) // 2 + 3] + shapes[-3:]
-        w = world("recursive", toy=en.toy)
-        for shape in shapes:
-            if time.time() - t_all > 420:
-                errors.append("observation time budget exhausted at entry %s" % en.name)
-                break
-            ex = Exec(w, types=en.types(w) if en.types else {}, abstract=en.abstract(w) if en.abstract else None, int_bound=min(en.int_bound, 17), max_loop=6)
-            def entry(ex, shape=shape):
-                h = H(ex)
-                inputs, thunk = en.build(h, shape)
-                return thunk()
-            try:
-                outs = ex.explore(entry, max_paths=en.max_paths if en.name in ("fri_loops", "coset_loop") else min(en.max_paths, 150),
-                                  budget_s=en.budget_s if en.name in ("fri_loops", "coset_loop") else 40)
-            except (Unsupported, LoopBound) as u:
-                errors.append("%s %s: %s" % (en.name, shape, str(u)[:120]))
-                continue
-            for o in outs:
-                if o.kind == "unbounded":
-                    unbounded[(sxh.rel_site(o), o.site[1])] = (o.msg, en.name)
-    obs = sx.SITE_OBS
-    sx.SITE_OBS = None
-    c18.EXPLORATION_BOUNDS = True
-    return obs, unbounded, errors
+    _ENTRIES = todo
+    merged, unbounded, errors = {}, {}, []
+    with mp.get_context("fork").Pool(min(len(todo), max(2, (os.cpu_count() or 4) - 2))) as pool:
+        for out, unb, errs in pool.imap(_observe_entry, range(len(todo))):
+            errors += errs
+            unbounded.update(unb)
+            for k, v in out.items():
+                m = merged.setdefault(k, {"kind": v["kind"], "counts": set(), "symbolic": False, "bounds": [], "entries": []})
+                m["counts"].update(v["counts"])
+                m["symbolic"] = m["symbolic"] or v["symbolic"]
+                if v["has_terms"]:
+                    m["bounds"].append((v["B"], v["entry"]))
+                m["entries"].append(v["entry"])
+    return merged, unbounded, errors
 
 
 def decide_bound(o):
@@ -331,11 +355,7 @@ def run(tier, only=None):
     w = world("recursive", toy=True)
     obs_list = []
     sites, recursive = list_sites(w)
-    observed, unbounded, errors = observe_all(tier)
-    obs_rel = {}
-    for (f, line), o in observed.items():
-        rel = common.rel(f) if str(f).startswith(REPO) else str(f)
-        obs_rel[(rel, line)] = o
+    obs_rel, unbounded, errors = observe_all(tier)
     classified, unclassified = {}, []
     for key, (kind, fn) in sorted(sites.items()):
         o = obs_rel.get(key)
@@ -348,7 +368,7 @@ def run(tier, only=None):
         if o["symbolic"] or (key in [(k[0], k[1]) for k in unbounded]) or key in TAINTED:
             cls = "VALUE of an input field"
         elif len(o["counts"]) > 1:
-            cls = "length of supplied data"
+            cls = "length of supplied data"      # (or a layout constant: the count differs between shapes but is never symbolic)
         else:
             cls = "constant on all explored shapes (%s iterations)" % sorted(o["counts"])[0]
         classified[key] = (kind, fn, cls)
@@ -380,13 +400,15 @@ def run(tier, only=None):
             "harness runs it (see C18 preconditions)" % CANDIDATE_BOUNDS)
         st = Stats()
         callers = callers_of(w, fn)
-        B = decide_bound(o) if o["terms"] else None
+        bl = o["bounds"] if o else []
+        B = (None if any(b_ is None for b_, e_ in bl) else max(b_ for b_, e_ in bl)) if bl else None
+        where = ", ".join("%s: %s" % (e_, b_) for b_, e_ in bl)
         unb = [v for k, v in unbounded.items() if (k[0], k[1]) == key]
         caller_txt = "; ".join("%s::%s%s" % (r, f, " (constant arguments)" if all(const_args(n)) else "") for r, f, n in callers[:6]) or "none in the verifier crates"
         all_const = bool(callers) and all(all(const_args(n)) for r, f, n in callers)
         if B is not None:
-            obs_list.append(finish(ob, "holds", st, detail="trip count <= %d on every observed path (z3: `count > %d` unsat under the path conditions); callers: %s" % (
-                B, B, caller_txt), solver="z3 %s (in-process, 10 s per candidate)" % z3.get_version_string()))
+            obs_list.append(finish(ob, "holds", st, detail="trip count <= %d on every observed path (z3: `count > %d` unsat under the path conditions; per harness: %s); "
+                                   "callers: %s" % (B, B, where, caller_txt), solver="z3 %s (in-process, 10 s per candidate)" % z3.get_version_string()))
         elif not callers:
             obs_list.append(finish(ob, "holds", st, detail="trip count follows the function's argument (no constant bound%s) but the function is not called "
                                    "from the verification path: callers in crates/*/src (non-test): none" % (": " + unb[0][0] if unb else ""), solver="-"))
@@ -409,6 +431,13 @@ def native_scaling(fn):
     """generate_queries is the one value-bounded loop with a native request: show work proportional to the value"""
     if fn != "generate_queries":
         return None
+    # more samples than domain elements: a loop that waits for n DISTINCT values never ends
+    req = {"fn": "generate_queries", "transcript": {"digest": "0x1", "counter": "0x0"}, "n_samples": hx(3), "query_upper_bound": hx(2)}
+    try:
+        replay([req], ["recursive"], timeout_s=10)
+    except ReplayUnavailable as r:
+        if "timed out" in str(r):
+            return {"reproduced": True, "request": req, "real_output": {"hang": "no answer within 10 s (3 samples from a domain of 2 elements)"}}
     times = []
     for n in (2**12, 2**16):
         req = {"fn": "generate_queries", "transcript": {"digest": "0x1", "counter": "0x0"}, "n_samples": hx(n), "query_upper_bound": hx(2**20)}
